@@ -44,6 +44,24 @@ def check_model(ctx, m, e, fa):
                     which = "bed12_valueerror" if got["raise"] != b["r"]["raise"] else "bed12_fields"
                     ctx.violation(case, "%s_%s" % (which, form), {"id": tid, "observed": [dec(x) for x in got.get("fields", [])],
                                                                       "expected": [dec(x) for x in b["r"].get("fields", [])]})
+            # the SAME handle is asked again for the same transcript with other arguments, and then with the first ones again:
+            # every answer is a function of (database, arguments) only
+            variants = [("blocks_CDS", b["r2"], b["decl2"], dict(block_featuretype=["CDS"], thick_featuretype=["exon"], name_field="Name", color="255, 0, 0")),
+                        ("default_again", b["r"], b["decl"], {}),
+                        ("thin", b["r3"], b["decl3"], dict(block_featuretype="exon", thick_featuretype=None, thin_featuretype=["exon"])),
+                        ("blocks_CDS_feature", b["r2"], b["decl2"], dict(block_featuretype="CDS", thick_featuretype="exon", name_field="Name", color=" 255,0,0 "))]
+            for vname, want, decl, kw in variants:
+                if not decl:
+                    ctx.violation(case, "model:bed12_decl_" + vname, {"id": tid})
+                try:
+                    got = bed_fields(d, d[tid] if vname.endswith("feature") else tid, **kw)
+                except Exception as ex:  # noqa
+                    ctx.violation(case, "bed12_%s_raised:%s" % (vname, type(ex).__name__), {"id": tid, "message": str(ex)[:120]})
+                    continue
+                if got != want:
+                    which = "bed12_valueerror" if got["raise"] != want["raise"] else "bed12_fields"
+                    ctx.violation(case, "%s_%s" % (which, vname), {"id": tid, "arguments": kw, "observed": [dec(x) for x in got.get("fields", [])],
+                                                                     "expected": [dec(x) for x in want.get("fields", [])]})
             # the alternative converter agrees on the block geometry whenever the blocks span the transcript
             if not b["r"]["raise"]:
                 t = d[tid]
@@ -94,7 +112,7 @@ def run(ctx):
     ctx.sample({"model": I.model_lines(models[0]), "expected_bed12": [[dec(x) for x in b["r"].get("fields", [])] for b in exp[0]["bed"]],
                 "reference": dec(models[0]["ref"]), "queries": models[0]["queries"][:2], "expected_sequences": [dec(s) for s in exp[0]["seqs"][:2]]})
     ctx.assumptions += ["thick features are given through thick_featuretype (the default); when there is no thick child the thick fields are not constrained by the statement and are compared with the algorithmic layer",
-                        "reference sequences use the letters ACGTacgtN"]
+                        "reference sequences use the IUPAC nucleotide codes in both cases (ACGTN RYKMBDHVWS)"]
 
 
 def replay(ctx, rec):
